@@ -33,10 +33,10 @@ theorem wid_bodies_as_expected :
 
 /-- The regenerated bodies parse to the statement trees the execution lemmas are about. -/
 theorem gen_bodies_parsed : genB = expB := by
-  obtain ⟨h1, h2, _, h4, h5, h6, h7, h8, h9, h10, h11, h12, h13, h14, h15, h16, _, h18⟩ := wid_bodies_as_expected
+  obtain ⟨h1, h2, h3, h4, h5, h6, h7, h8, h9, h10, h11, h12, h13, h14, h15, h16, _, h18⟩ := wid_bodies_as_expected
   unfold genB expB
-  rw [h1, h2, h4, h5, h6, h7, h8, h9, h10, h11, h12, h13, h14, h15, h16, h18,
-    WidTrees.parse_lmin, WidTrees.parse_lmax, WidTrees.parse_lindex, WidTrees.parse_ldraw, WidTrees.parse_ldown,
+  rw [h1, h2, h3, h4, h5, h6, h7, h8, h9, h10, h11, h12, h13, h14, h15, h16, h18,
+    WidTrees.parse_lmin, WidTrees.parse_lmax, WidTrees.parse_lnew, WidTrees.parse_lindex, WidTrees.parse_ldraw, WidTrees.parse_ldown,
     WidTrees.parse_lup, WidTrees.parse_lhome, WidTrees.parse_lend, WidTrees.parse_lpgdn, WidTrees.parse_lpgup,
     WidTrees.parse_lset, WidTrees.parse_pdraw, WidTrees.parse_play, WidTrees.parse_pdown, WidTrees.parse_pup,
     WidTrees.parse_bdraw]
@@ -54,6 +54,10 @@ theorem list_rhs_is_gen : SimpleList.gen = rhsFixed := by
 theorem minmax_body_eq_model (a b : Int) :
     runFun2 genB.listMin a b = .ok (some (min a b)) ∧ runFun2 genB.listMax a b = .ok (some (max a b)) := by
   rw [gen_bodies_parsed]; exact ⟨WidExec.lmin_run a b, WidExec.lmax_run a b⟩
+
+/-- `New(items)`, executed from its body (`return List{items: items}`), is the model's initial state: index 0, offset 0. -/
+theorem list_new_body_eq_model (k : Nat) : runListNew genB.listNew k = some (SimpleList.new k) := by
+  rw [gen_bodies_parsed]; exact WidExec.lnew_run k
 
 /-- `Index()` returns the index. -/
 theorem list_index_body_eq_model (s : SimpleList.St) : runListIndex genB.listIndex s = some s.index := by
